@@ -49,6 +49,9 @@ func checkFilter(r *Run, prog *Program, a *Anchors, pfx string) {
 		sc := sc
 		ps := NewPathSim(prog)
 		ps.maxVisits = 3
+		ps.Inline = func(c *ssa.Function) bool {
+			return prog.InModule(c) && c != evalM && c != fn && fnPkg(c) == prog.Bexpr.Types && (c.Object() == nil || !c.Object().Exported())
+		}
 		ps.Seed = func(st *pstate) { assume(st, fNil, false) }
 		errs := map[string]bool{}
 		ps.Model = func(ev *Event) *Sym {
